@@ -339,13 +339,14 @@ func convert(s *spec.Spec, env *Env, raw any, depth int) (any, Verdict) {
 		}
 		out := make(map[any]any, rv.Len())
 		verdict := Accept
-		for _, k := range rv.MapKeys() {
+		for it := rv.MapRange(); it.Next(); { // not MapIndex: a NaN key cannot be looked up
+			k := it.Key()
 			mk, v := Denote(s.Keys, env, k.Interface())
 			verdict = worst(verdict, v)
 			if verdict == Reject {
 				return nil, Reject
 			}
-			mvv, v := convert(s.Values, env, rv.MapIndex(k).Interface(), depth+1)
+			mvv, v := convert(s.Values, env, it.Value().Interface(), depth+1)
 			verdict = worst(verdict, v)
 			if verdict == Reject {
 				return nil, Reject
